@@ -382,6 +382,36 @@ def r4_everything_deleted(ctx):
             f'clean: deletes the whole `{setname}`',
             f'clean: the deleting join does not iterate the whole `{setname}` (slice / filter / other collection)',
         )
+    # completeness of the selection: a listed chunk escapes deletion only because it is referenced or (encrypted repository)
+    # because its ownership tag does not verify.  Any other way around `to_delete.add(..)` leaves the caller's orphans behind.
+    from .guards import guard_edges
+
+    ccfg = cfg_of(cfn.node)
+    add_nodes = [x for a in adds for x in ccfg.nodes_of(enclosing_stmt(a), 'stmt')]
+    allowed = []
+    for i in walk_local(loop):
+        if isinstance(i, ast.If):
+            t, neg = i.test, False
+            while isinstance(t, ast.UnaryOp) and isinstance(t.op, ast.Not):
+                t, neg = t.operand, not neg
+            if isinstance(t, ast.Compare) and len(t.ops) == 1 and isinstance(t.ops[0], (ast.In, ast.NotIn)) and isinstance(t.left, ast.Name) and t.left.id == var:
+                referenced_edge = 'true' if isinstance(t.ops[0], ast.In) != neg else 'false'
+                allowed += ccfg.nodes_of(i, referenced_edge)
+    tag_skip, _tag_pass, tag_found = guard_edges(cfn.node, kinds=('tag',), within=loop)
+    allowed += tag_skip
+    heads = ccfg.nodes_of(loop, 'loop')
+    escape = None
+    for t in ccfg.nodes_of(loop, 'true'):
+        escape = escape or ccfg.path(t, heads, avoid=add_nodes + allowed, kinds=('normal',))
+    ctx.check(
+        escape is None and all(c_['exact'] for _n, c_ in tag_found),
+        'C08.R4',
+        f'{func_label(cfn)}|unselected-only-if-referenced-or-foreign',
+        loc(cfn, loop),
+        'clean: a listed chunk is left out of the deletion only when it is referenced or its ownership tag does not verify',
+        'clean: a listed chunk can be left out of the deletion for another reason than "referenced" / "foreign tag" (an extra condition on the way to the selection): '
+        "the caller's own unreferenced chunks survive clean - path " + ' -> '.join(f'{n.kind}@{n.lineno}' for n in (escape or []) if n.lineno)[:200],
+    )
     # `setname` is not shrunk between selection and deletion
     for n in walk_local(cfn.node):
         if isinstance(n, ast.Call) and isinstance(n.func, ast.Attribute) and isinstance(n.func.value, ast.Name) and n.func.value.id == setname and n.func.attr in ('pop', 'discard', 'remove', 'clear', 'difference_update', 'intersection_update'):
@@ -421,6 +451,7 @@ def r4b_listing_examined_completely(ctx):
 
 
 def r5_errors_propagate(ctx):
+    shared.local_listing_errors_propagate(ctx, 'C08.R5')
     shared.no_swallowed_backend_errors(ctx, 'C08.R5')
     shared.gathers_propagate(ctx, 'C08.R5')
 
@@ -448,4 +479,7 @@ def run(ctx):
 
     _gc = [ctx.corpus.func('repository', 'Repository.clean'), DeleteRoles(ctx.corpus).fn]
     stale_loop_variables(ctx, 'C08.R2', _gc + [n for g in _gc for n in g.all_nested()], 'reference / keep set')
+    from .shared import leftover_from_finished_loop
+
+    leftover_from_finished_loop(ctx, 'C08.R2', _gc + [n for g in _gc for n in g.all_nested()], 'reference / keep set')
     r5_errors_propagate(ctx)
